@@ -84,8 +84,31 @@ fn raw(w: &World, n: &RelationWithRewritingRule) -> bool {
 }
 
 fn ir_reads_protected(w: &World, rel: &Relation) -> bool {
-    (if let Relation::Table(t) = rel { w.specs.iter().any(|s| s.protected && t.path().to_string() == s.name) } else { false })
+    (if let Relation::Table(t) = rel { w.specs.iter().any(|s| s.protected && t.path().to_string() == s.path) } else { false })
         || rel.inputs().into_iter().any(|i| ir_reads_protected(w, i))
+}
+
+/// exhaustive, independent enumeration of the consistent rule assignments of a tree:
+/// (derivation in Coq syntax, root label, score)
+fn enumerate(n: &RelationWithRewritingRules) -> Vec<(String, Property, i64)> {
+    let kids: Vec<Vec<(String, Property, i64)>> = n.inputs().iter().map(|c| enumerate(c)).collect();
+    let mut combos: Vec<Vec<(String, Property, i64)>> = vec![vec![]];
+    for k in &kids { let mut next = vec![]; for c in &combos { for x in k { let mut c2 = c.clone(); c2.push(x.clone()); next.push(c2); } } combos = next; }
+    let w = |p: &Property| match p { Property::SyntheticData => 1, Property::PrivacyUnitPreserving => 2, Property::DifferentiallyPrivate => 5, Property::Published => 1, Property::Public => 10, _ => 0 };
+    let mut out = vec![];
+    for c in &combos {
+        for r in n.attributes() {
+            if r.inputs().len() == c.len() && r.inputs().iter().zip(c.iter()).all(|(i, x)| *i == x.1) {
+                out.push((format!("(D ({}) {})", rule_coq(r), coq_list(c, |x| x.0.clone())), *r.output(), w(r.output()) + c.iter().map(|x| x.2).sum::<i64>()));
+            }
+        }
+    }
+    out
+}
+fn well_typed(d: &RelationWithRewritingRule) -> bool {
+    d.attributes().inputs().len() == d.inputs().len()
+        && d.attributes().inputs().iter().zip(d.inputs().iter()).all(|(i, c)| i == c.attributes().output())
+        && d.inputs().iter().all(|c| well_typed(c))
 }
 
 pub fn dp_params() -> DpParameters { DpParameters::from_epsilon_delta(1.0, 1e-4) }
@@ -166,6 +189,36 @@ pub fn run(prop: &str, outdir: &str, seed: u64, thorough: bool) -> serde_json::V
             if dp_entry { rel.rewrite_with_differential_privacy(&w.relations, if syn { Some(w.synthetic.clone()) } else { None }, w.privacy_unit.clone(), dp_params()) }
             else { rel.rewrite_as_privacy_unit_preserving(&w.relations, if syn { Some(w.synthetic.clone()) } else { None }, w.privacy_unit.clone(), dp_params(), Some(if hard { Strategy::Hard } else { Strategy::Soft })) }
         }));
+        if prop == "C13" {
+            let rr0 = rel.set_rewriting_rules(setter(&w, syn, hard));
+            let all = enumerate(&rr0);
+            let sel_set: BTreeSet<&String> = selected.iter().collect();
+            let all_set: BTreeSet<&String> = all.iter().map(|x| &x.0).collect();
+            {
+                let rr_e = rr0.map_rewriting_rules(RewritingRulesEliminator);
+                for d in rr_e.select_rewriting_rules(RewritingRulesSelector).iter() {
+                    if !well_typed(d) { st.violation(json!({"kind":"ill-typed-derivation-enumerated","query":sql,"synthetic":syn,"strategy":if hard {"Hard"} else {"Soft"},"derivation":deriv_coq(d)})); break; }
+                }
+            }
+            if let Some(missing) = all_set.difference(&sel_set).next() {
+                st.violation(json!({"kind":"consistent-derivation-not-enumerated","query":sql,"synthetic":syn,"strategy":if hard {"Hard"} else {"Soft"},"derivation":missing}));
+            }
+            let accept = |p: &Property| if dp_entry { matches!(p, Property::Public | Property::Published | Property::DifferentiallyPrivate | Property::SyntheticData) } else { matches!(p, Property::Public | Property::PrivacyUnitPreserving) };
+            let best = all.iter().filter(|x| accept(&x.1)).map(|x| x.2).max();
+            match (&entry, best) {
+                (Ok(Ok(rw)), Some(b)) => {
+                    // the relation returned must be what some best-scoring consistent derivation rewrites to
+                    let got = format!("{}|{}", signature(rw.relation()), rw.dp_event());
+                    let best_derivs: BTreeSet<&String> = all.iter().filter(|x| accept(&x.1) && x.2 == b).map(|x| &x.0).collect();
+                    let ok = sigs.iter().any(|(i, sg)| sg.as_deref() == Some(got.as_str()) && best_derivs.contains(&selected[*i]));
+                    if !ok { st.violation(json!({"kind":"applied-derivation-not-a-best-consistent-one","query":sql,"synthetic":syn,"strategy":if hard {"Hard"} else {"Soft"},
+                        "entry":if dp_entry {"rewrite_with_differential_privacy"} else {"rewrite_as_privacy_unit_preserving"},"best_score":b,"returned":got,"best_consistent_derivations":best_derivs})); }
+                }
+                (Ok(Ok(rw)), None) => st.violation(json!({"kind":"rewriting-returned-without-consistent-derivation","query":sql,"synthetic":syn,"returned":signature(rw.relation())})),
+                (Ok(Err(_)), Some(b)) => st.violation(json!({"kind":"unreachable-reported-although-derivation-exists","query":sql,"synthetic":syn,"strategy":if hard {"Hard"} else {"Soft"},"best_score":b})),
+                _ => {}
+            }
+        }
         let outcome = match &entry {
             Ok(Ok(rw)) => Some(Some(format!("{}|{}", signature(rw.relation()), rw.dp_event()))),
             Ok(Err(_)) => Some(None),
